@@ -94,7 +94,47 @@ RESULTS = {
     "C20-B": ("C20", "mla_archive_close clears the caller's handle only when finalize succeeds",
               "close that fails (failing callback / open file), then the handle used again",
               ("missed", "needs a real ArchiveWriter behind the handle (from_config: bincode header, HashMaps) — only argument validation and the adapters are within reach for C20")),
+    # ---- second round (sub-agents were also given the list of first-round changes so as not to repeat them)
+    "C02-C": ("C02", "fail-safe decompressor: input-cache fill offset assigned (`=`) instead of advanced (`+=`) (same patch as C05-C, delivered for C02)",
+              "a refill that tops up a partly filled 4 KiB cache (source returning short reads)",
+              ("detected", "C02", ["h_cmp_fs_pass"], "intact 3-block stream through a 1-byte source recovered 0 bytes")),
+    "C02-D": ("C02", "fail-safe decompressor returns Ok(0) when a compressed block ends without output in that pass",
+              "end marker of a block consumed in a pass that produces no byte (1-byte source; block output complete earlier)",
+              ("detected", "C02", ["h_cmp_fs_pass"], "intact 3-block stream through a 1-byte source recovered 4194304 of 9786714 bytes")),
+    "C03-C": ("C03", "chunk tag compared with a hand-written loop using `=` instead of `|=`: only byte 15 of the tag is checked",
+              "altered chunk whose stored tag still matches in its last byte",
+              ("detected", "C03", ["h_enc_load_auth_refines", "h_enc_load_auth_refines_short"], "load_in_cache accepted a chunk that cannot authenticate (tag altered at the byte the solver chose)")),
+    "C03-D": ("C03", "wrapped-key tag compared from index 1: byte 0 of the key-wrapping GCM tag never checked",
+              "header whose wrapped-key entry has tag byte 0 altered",
+              ("detected", "C03", ["h_ecc_unwrap_only_verified"], "retrieve_key returned a key although both stored tags were altered (differences in byte 0 only)")),
+    "C05-C": ("C05", "fail-safe decompressor: input-cache fill offset assigned (`=`) instead of advanced (`+=`)",
+              "a refill that tops up a partly filled 4 KiB cache (source returning short reads)",
+              ("detected", "C05", ["h_cmp_fs_pass"], "intact 3-block stream through a 1-byte source recovered 0 bytes")),
+    "C05-D": ("C05", "per-block output counter not reset when a compressed block ends in a pass without output",
+              "end marker consumed in a pass producing nothing, then a following block",
+              ("detected", "C05", ["h_cmp_fs_pass"], "intact 3-block stream through a 1-byte source recovered 4194304 of 9786714 bytes")),
+    "C08-C": ("C08", "sync_inner_with_uncompressed_pos slices the size table `[..block_num]` instead of iter().take()",
+              "footer size table whose last_block_size puts the end position beyond the listed blocks",
+              ("detected", "C08", ["h_cmp_total_read", "h_cmp_total_seek"], "real code panicked: range end index 1024 out of range for slice of length 2")),
+    "C08-D": ("C08", "compression seek(Start) no longer refuses the Empty placeholder state left by a failed operation",
+              "failed read/seek (damaged block) followed by a seek",
+              ("detected", "C08", ["h_cmp_total_read"], "real code panicked: [Reader] Empty type to inner is impossible")),
+    "C11-C": ("C11", "tag_position_to_no_tag_position clamps the in-chunk offset to CHUNK_SIZE - 1",
+              "SeekFrom::End on a stream whose last chunk is exactly full",
+              ("detected", "C11", ["h_enc_maps_inv", "h_enc_seek_end"], "seek(End(-786432)) on a stream of 786432 plaintext bytes failed; map off by one at a chunk end")),
+    "C11-D": ("C11", "compression seek to the very end records the block-rounded position instead of the target",
+              "seek landing exactly on the end of the stream, then position-relative operations",
+              ("detected", "C11", ["h_cmp_seek_cur_indata"], "after seek(Start) then Current(+n) to the end, sequential reading returned 3708590 bytes, the stream holds 0 more")),
+    "C13-C": ("C13", "HashWrapperReader::read hashes the whole destination buffer instead of the bytes returned",
+              "content source returning fewer bytes than asked",
+              ("detected", "C13", ["h_hash_wrapper"], "hash accumulated while copying through a 1-byte source differs from SHA-256 of the bytes returned")),
+    "C13-D": ("C13", "fail-safe decompressor takes a refill that does not fill the cache as end of input",
+              "archive source returning short reads during repair",
+              ("detected", "C13", ["h_cmp_fs_pass"], "intact 3-block stream through a 1-byte source recovered 0 bytes")),
 }
+
+# second-round deliverables live in /tmp/m2_<PROP>/out/<A|B>
+ROUND2_SRC = {"C": "A", "D": "B"}
 
 
 def main(overrides=None):
@@ -108,7 +148,7 @@ def main(overrides=None):
     os.makedirs(out_root, exist_ok=True)
     summary = []
     for mid, (prop, desc, needs, det) in sorted(res.items()):
-        src = f"/tmp/mut_{prop}/out/{mid[-1]}"
+        src = f"/tmp/m2_{prop}/out/{ROUND2_SRC[mid[-1]]}" if mid[-1] in ROUND2_SRC else f"/tmp/mut_{prop}/out/{mid[-1]}"
         dst = os.path.join(out_root, mid)
         if os.path.isdir(src):
             os.makedirs(dst, exist_ok=True)
@@ -130,7 +170,8 @@ def main(overrides=None):
             "property": prop,
             "change": desc,
             "needs_to_manifest": needs,
-            "origin": "independent sub-agent given only the property text and a scratch worktree of /repo (nothing from /verif)",
+            "origin": "independent sub-agent given only the property text and a scratch worktree of /repo (nothing from /verif)"
+                      + ("; second round: also given a one-line list of the first-round changes (to avoid repeats) and a list of candidate source files" if mid[-1] in ROUND2_SRC else ""),
             "confirmation": conf,
             "confirmation_procedure": "bin/confirm_seeded.py in a scratch worktree: demo on the pristine tree passes; demo with the "
                                       "change fails; whole pinned suite with the change passes (flaky test_repair_auth_unauth ignored)",
